@@ -237,20 +237,28 @@ def first_decodes(ctx, shard):
                     x = bytearray(b)
                     x[off:off + n] = val.to_bytes(n, "big")
                     if x != b:
-                        odd.append((bytes(x), v))
+                        odd.append((bytes(x), v, bytes(b), val))
         if not odd:
             continue
-        before = [outcome(f, x, v) for x, v in odd]
+        odd.sort(key=lambda o: o[3] != 0)  # (stable) the ones that say zero first: they can teach the decoder nothing
+        before = [outcome(f, x, v) for x, v, _b, _val in odd]
         for _rep in range(12):
             v = f.gen(rng)
             try:
                 f.lib_decode(bytearray(f.encode(v)), v)
             except Exception:  # noqa: BLE001
                 pass
-        after = [outcome(f, x, v) for x, v in odd]
+        after = []
+        for x, v, b0, _val in odd:
+            # ... each right after the well-formed response it was made from (same kinds, same descriptor sizes)
+            try:
+                f.lib_decode(bytearray(b0), v)
+            except Exception:  # noqa: BLE001
+                pass
+            after.append(outcome(f, x, v))
         ctx.case(("first-decodes", name, len(odd)), True)
         ctx.count("odd_responses_decoded_before_and_after_well_formed_ones", len(odd))
-        for (x, _v), r1, r2 in zip(odd, before, after):
+        for (x, _v, _b0, _val), r1, r2 in zip(odd, before, after):
             if r1 != r2:
                 ctx.fail("C09:decode.depends_on_earlier_decodes.%s" % name, "%s: the response %s... decoded to %s as the first of its kind in the process and to %s after well-formed responses had been decoded"
                          % (name, x[:24].hex(), r1[1][:120], r2[1][:120]), {"format": name, "response": x.hex()})
